@@ -283,12 +283,16 @@ impl<'a> Iterator for Lexer<'a> {
                                 '0' => '\0',
                                 'r' => '\r',
                                 'u' => {
-                                    if iter.next() != Some('{') {
+                                    // Only consume the next character if it is the opening brace:
+                                    // otherwise it is a regular character of the string (and
+                                    // `self.l` must stay in sync with the iterator).
+                                    if iter.clone().next() != Some('{') {
                                         // TODO error
                                         continue;
                                     }
+                                    iter.next();
                                     self.l += '{'.len_utf8();
-                                    let mut i = 0;
+                                    let mut i = 0_u32;
                                     let mut valid = true;
                                     loop {
                                         let Some(n) = iter.next() else {
@@ -305,7 +309,8 @@ impl<'a> Iterator for Lexer<'a> {
                                                 valid = false;
                                             }
                                             Some(d) => {
-                                                i = i * 16 + d;
+                                                // Saturate: too many digits is not a valid char.
+                                                i = i.saturating_mul(16).saturating_add(d);
                                             }
                                         }
                                     }
